@@ -387,9 +387,9 @@ class ParseAPI(object):
         Parse a public pair as a text SEC.
         Return a :class:`Key <pycoin.key.Key>` or None.
         """
-        pair = parse_colon_prefix(s)
-        if pair is not None and pair[0] == self._wif_prefix:
-            s = pair[1]
+        sec_prefix = self._sec_prefix
+        if isinstance(sec_prefix, str) and sec_prefix and s.startswith(sec_prefix):
+            s = s[len(sec_prefix) :]
         try:
             sec = h2b(s)
             return self._network.keys.public(sec)
